@@ -5,7 +5,7 @@ From Coq Require Import NArith List Bool.
 Import ListNotations.
 From Coq Require Import ZArith.
 From CXV Require Import Gen.TokTy Gen.ParserTables Parse.Balanced Gen.Blocks Parse.BlocksSM.
-From CXV Require Import Base.Regex Base.Cost Gen.LexRules Lex.PlyLoop Gen.StreamTables Stream.TokBuf Fmt.TokFmt PP.Filters Misc.ReprModel Gen.Schema Parse.Fold Parse.Declarator Parse.DeclSpec Parse.EnumList Parse.BaseClause Parse.NsHeader Parse.Specs Parse.VarStmt Parse.FnTail Parse.Init Parse.Members Parse.MethodTail Parse.Template Parse.PQName.
+From CXV Require Import Base.Regex Base.Cost Gen.LexRules Lex.PlyLoop Gen.StreamTables Stream.TokBuf Fmt.TokFmt PP.Filters Misc.ReprModel Gen.Schema Parse.Fold Parse.Declarator Parse.DeclSpec Parse.EnumList Parse.BaseClause Parse.NsHeader Parse.Specs Parse.VarStmt Parse.FnTail Parse.Init Parse.Members Parse.MethodTail Parse.Template Parse.PQName Parse.Using Parse.EnumDecl Parse.ClassEnum.
 Open Scope N_scope.
 
 Definition nlen {A} (l : list A) : N := N.of_nat (length l).
@@ -607,8 +607,63 @@ Definition run_pqname (args : list N) : list N :=
   | DErr e => [1; e]
   end.
 
+(* 98: a using statement (after the `using` keyword): in_class, has_template, then tokens.
+   Output: 0, rest length, then 1 root count names | 2 <pq as in 97> | 3 name <type> *)
+Definition run_using (args : list N) : list N :=
+  match args with
+  | ic :: ht :: r =>
+      let toks := dec_tks r in
+      match using_stmt (negb (ic =? 0)) (negb (ht =? 0)) (4 * length toks + 8) toks with
+      | DOk (UDir root ns, rest) => 0 :: nlen rest :: 1 :: bN root :: nlen ns :: ns
+      | DOk (UDecl q, rest) => 0 :: nlen rest :: 2 :: bN (pq_typename q) :: nlen (pq_key q) :: pq_key q ++ nlen (pq_segs q) :: flat_map enc_seg (pq_segs q)
+      | DOk (UAlias a t, rest) => 0 :: nlen rest :: 3 :: a :: enc_ty t
+      | DErr e => [1; e]
+      end
+  | _ => [1; 0]
+  end.
+
+(* 99: an enum declaration behind its name (':' or '{' first): is_typedef, then tokens.
+   Output: 0, rest length, then 1 <pq> | 2 has_base [<pq>] count, per enumerator as in 84 *)
+Definition enc_pq (q : pq) : list N :=
+  bN (pq_typename q) :: nlen (pq_key q) :: pq_key q ++ nlen (pq_segs q) :: flat_map enc_seg (pq_segs q).
+Definition enc_enumerators (l : list enumerator) : list N :=
+  nlen l :: flat_map (fun e => fst e :: match snd e with
+                                        | Some v => 1 :: nlen v :: enc_tks v
+                                        | None => [0]
+                                        end) l.
+Definition run_enum_decl (args : list N) : list N :=
+  match args with
+  | td :: r =>
+      match enum_decl (negb (td =? 0)) (dec_tks r) with
+      | DOk (EFwd q, rest) => 0 :: nlen rest :: 1 :: enc_pq q
+      | DOk (EDef (Some q) items, rest) => 0 :: nlen rest :: 2 :: 1 :: enc_pq q ++ enc_enumerators items
+      | DOk (EDef None items, rest) => 0 :: nlen rest :: 2 :: 0 :: enc_enumerators items
+      | DErr e => [1; e]
+      end
+  | _ => [1; 0]
+  end.
+
+(* 100: the class / enum dispatch behind an elaborated type: template, is_typedef, is_friend, nine specifier flags
+   (const volatile constexpr extern inline static explicit virtual mutable), key length, key, then tokens.
+   Output: 0, rest length, 0 forward | 1 friend | 2 class | 3 enum | 4 none *)
+Definition run_class_enum (args : list N) : list N :=
+  match args with
+  | tp :: td :: fr :: c :: v :: ce :: ex :: il :: st :: xp :: vi :: mu :: kl :: r =>
+      let b x := negb (x =? 0) in
+      let key := firstn (N.to_nat kl) r in
+      let toks := dec_tks (skipn (N.to_nat kl) r) in
+      match class_enum key (mkMods (b c) (b v) (b ce) (b ex) (b il) (b st) (b xp) (b vi) (b mu)) (b tp) (b td) (b fr) toks with
+      | DOk (o, rest) => [0; nlen rest; match o with CEForward => 0 | CEFriend => 1 | CEClass _ => 2 | CEEnum _ => 3 | CENone => 4 end]
+      | DErr e => [1; e]
+      end
+  | _ => [1; 0]
+  end.
+
 Definition run_case (cmd : N) (args : list N) : list N :=
   match cmd, args with
+  | 100, _ => run_class_enum args
+  | 99, _ => run_enum_decl args
+  | 98, _ => run_using args
   | 97, _ => run_pqname args
   | 96, _ => run_tdecl args
   | 95, _ => run_class_head args
